@@ -1452,7 +1452,7 @@ def run(ck):
     if not quick and 'VERIF_JOBS' not in os.environ:
         batch.workers = max(JOBS, min(12, os.cpu_count() or 4))     # thorough: ~1500 case files
     INVALID.clear()
-    ROUNDS_BUDGET[0] = 80 if ck.tier == 'quick' else 1500
+    ROUNDS_BUDGET[0] = 80 if ck.tier == 'quick' else 1000
     CE_CLASS.clear()
     GAP_TAGS.clear()
     sent = set()
@@ -1582,9 +1582,9 @@ def run(ck):
                     sent.add(f'graph{n}:{es} renumbered')
                     n_coq += 1
             elif not quick and n == 6 and nu >= 2:
-                # thorough: a larger exhaustive space for the end-to-end model: every third labelled 6-atom graph with at least two rings
+                # thorough: a larger exhaustive space for the end-to-end model: every fourth labelled 6-atom graph with at least two rings
                 six[0] += 1
-                if six[0] % 3 == 0:
+                if six[0] % 4 == 0:
                     batch.add(*gen_cases(ck, m, f'graph{n}:{es}', stats, fam, tables=False))
                     ck.count('exhaustive 6-atom graphs through the end-to-end model (thorough)')
     timing['exhaustive small graphs (python)'] = round(time.time() - t0, 1)
